@@ -49,8 +49,25 @@ def rules_case(draw):
     rs = [dict(r) for r in rf['rules']]
     # inject wild expressions
     for _ in range(draw(st.integers(1, 4))):
-        where = draw(st.sampled_from(['match', 'match', 'let', 'field', 'tag', 'var', 'transform', 'newrule']))
+        where = draw(st.sampled_from(['match', 'match', 'let', 'field', 'tag', 'var', 'transform', 'newrule', 'shadow_fail']))
         w = draw(lang.wild_expr(2))
+        if where == 'shadow_fail':
+            # rule A binds (by let) a name that a LATER let-free rule B reads as a top-level variable / data source / primitive, and A's own match fails for the item:
+            # A must simply not exist for it, so B sees the global meaning of the name
+            name = draw(st.sampled_from(['threshold', 'is_large', 'label', 'orders', 'amount']))
+            val = {'threshold': ['num', draw(st.sampled_from([-5, 0, 10 ** 6]))], 'is_large': ['lit', draw(st.booleans())], 'label': ['str', draw(lang.word)],
+                   'orders': ['listcomp', ['name', 'r'], 'r', ['name', 'receipts'], ['lit', False]], 'amount': ['num', draw(st.sampled_from([-1, 10 ** 6]))]}[name]
+            reader = {'threshold': ['cmp', ['name', 'amount'], [['>', ['var', 'threshold']]]], 'is_large': ['var', 'is_large'], 'label': ['match', 'contains', ['var', 'label'], ''],
+                      'orders': ['cmp', ['len', ['name', 'orders']], [['>', ['num', 0]]]], 'amount': ['cmp', ['name', 'amount'], [['>', ['num', 100]]]]}[name]
+            fail = draw(st.sampled_from([['cmp', ['field', 'nosuch'], [['==', ['str', 'x']]]], ['cmp', ['name', 'amount'], [['>', ['str', 'x']]]], w]))
+            a = {'name': 'Shadow A', 'match': fail, 'category': 'ShadowCat', 'subcategory': '', 'merchant': None, 'priority': None, 'tags': ['a'], 'lets': [[name, val]], 'fields': []}
+            b_ = {'name': 'Reader B', 'match': reader, 'category': 'ReaderCat', 'subcategory': '', 'merchant': None, 'priority': None, 'tags': ['b'], 'lets': [], 'fields': []}
+            pos = draw(st.integers(0, len(rs)))
+            rs[pos:pos] = [a, b_]
+            if name in ('threshold', 'is_large', 'label') and not any(v[0] == name for v in rf['vars']):
+                gv = {'threshold': ['num', 50], 'is_large': ['cmp', ['name', 'amount'], [['>', ['num', 100]]]], 'label': ['name', 'description']}[name]
+                rf = dict(rf, vars=list(rf['vars']) + [[name, gv]])
+            continue
         if where == 'newrule' or not rs:
             rs.insert(draw(st.integers(0, len(rs))), {'name': 'Wild', 'match': w, 'category': draw(st.sampled_from(['', 'WildCat'])), 'subcategory': '',
                                                      'merchant': None, 'priority': None, 'tags': ['wild'], 'lets': [], 'fields': []})
@@ -60,7 +77,7 @@ def rules_case(draw):
         if where == 'match':
             r['match'] = draw(st.sampled_from([w, ['and', [r['match'], w]], ['or', [w, r['match']]]]))
         elif where == 'let':
-            name = draw(st.sampled_from(['m', 't', 'flag', 'lbl', 'w1']))
+            name = draw(st.sampled_from(['m', 't', 'flag', 'lbl', 'w1', 'threshold', 'is_large', 'label', 'orders', 'receipts', 'amount']))
             r['lets'] = list(r['lets']) + [[name, w]]
             if draw(st.booleans()):
                 r['match'] = ['or', [r['match'], ['cmp', ['var', name], [['>', ['num', 1]]]]]]
